@@ -18,6 +18,10 @@ use crate::tree;
 pub enum BandState {
     Absent,
     Present { hunks: Vec<Vec<usize>>, complete: bool },
+    /// A band directory without a BANDHEAD: what a killed band creation (no tail, nothing
+    /// else) or a killed removal of a version (everything but the head still there) leaves.
+    /// It is not an existing version.
+    Headless { hunks: Vec<Vec<usize>>, tail: bool },
 }
 
 /// All states of one band over `p` paths (indices into a sorted path list).
@@ -57,7 +61,12 @@ fn write_archive(root: &Path, paths: &[String], bands: &[BandState]) {
     let _ = std::fs::remove_dir_all(root);
     fmt06::write_archive_header(root);
     for (id, b) in bands.iter().enumerate() {
-        if let BandState::Present { hunks, complete } = b {
+        let (hunks, complete, headless) = match b {
+            BandState::Absent => continue,
+            BandState::Present { hunks, complete } => (hunks, *complete, false),
+            BandState::Headless { hunks, tail } => (hunks, *tail, true),
+        };
+        {
             let hv: Vec<Vec<Value>> = hunks
                 .iter()
                 .map(|h| {
@@ -66,7 +75,10 @@ fn write_archive(root: &Path, paths: &[String], bands: &[BandState]) {
                         .collect()
                 })
                 .collect();
-            fmt06::write_band(root, id as u32, &hv, *complete);
+            fmt06::write_band(root, id as u32, &hv, complete);
+            if headless {
+                std::fs::remove_file(root.join(fmt06::band_dirname(id as u32)).join("BANDHEAD")).unwrap();
+            }
         }
     }
 }
@@ -78,6 +90,8 @@ fn describe(bands: &[BandState], paths: &[String]) -> Value {
         .map(|(i, b)| match b {
             BandState::Absent => json!({"band": i, "state": "absent"}),
             BandState::Present { hunks, complete } => json!({"band": i, "complete": complete,
+                "hunks": hunks.iter().map(|h| h.iter().map(|p| paths[*p].clone()).collect::<Vec<_>>()).collect::<Vec<_>>()}),
+            BandState::Headless { hunks, tail } => json!({"band": i, "state": "directory without BANDHEAD", "tail": tail,
                 "hunks": hunks.iter().map(|h| h.iter().map(|p| paths[*p].clone()).collect::<Vec<_>>()).collect::<Vec<_>>()}),
         })
         .collect::<Vec<_>>())
@@ -183,16 +197,27 @@ pub fn band_states_with_empty_hunk(p: usize) -> Vec<BandState> {
     v
 }
 
+/// band_states plus the two head-less directory states.
+pub fn band_states_with_headless(p: usize) -> Vec<BandState> {
+    let mut v = band_states(p);
+    v.push(BandState::Headless { hunks: vec![], tail: false });
+    v.push(BandState::Headless { hunks: vec![(0..p).collect()], tail: true });
+    v.push(BandState::Headless { hunks: vec![(0..p).collect()], tail: false });
+    v
+}
+
 fn sorted_paths(mut v: Vec<String>) -> Vec<String> {
     v.sort_by(|a, b| apath_cmp(a, b));
     v
 }
 
-fn exhaustive(run: &Run, b: usize, p: usize, paths: &[String], with_empty: bool) {
-    let states = if with_empty { band_states_with_empty_hunk(p) } else { band_states(p) };
+fn exhaustive(run: &Run, b: usize, p: usize, paths: &[String], variant: u8) {
+    let with_empty = variant == 1;
+    let states = match variant { 1 => band_states_with_empty_hunk(p), 2 => band_states_with_headless(p), _ => band_states(p) };
     let total = (states.len() as u64).pow(b as u32);
     let threads = super::threads() as u64;
-    let name = format!("B{b}P{p}{}", if with_empty { "E" } else { "" });
+    let name = format!("B{b}P{p}{}", match variant { 1 => "E", 2 => "H", _ => "" });
+    let _ = with_empty;
     run.count(&format!("space_{name}"), total);
     let done = std::sync::atomic::AtomicU64::new(0);
     std::thread::scope(|s| {
@@ -259,6 +284,7 @@ fn random_case(run: &Run, case: u64) {
             bands.push(BandState::Absent);
             continue;
         }
+        let headless = rng.chance(1, 8);
         let subset: Vec<usize> = (0..paths.len()).filter(|_| rng.chance(2, 3)).collect();
         let mut hunks: Vec<Vec<usize>> = Vec::new();
         for pi in subset {
@@ -273,7 +299,11 @@ fn random_case(run: &Run, case: u64) {
             let pos = rng.below(hunks.len() as u64 + 1) as usize;
             hunks.insert(pos, Vec::new());
         }
-        bands.push(BandState::Present { hunks, complete: rng.chance(1, 3) });
+        if headless {
+            bands.push(BandState::Headless { hunks, tail: rng.chance(1, 2) });
+        } else {
+            bands.push(BandState::Present { hunks, complete: rng.chance(1, 3) });
+        }
     }
     let sc = Scratch::new("c08r");
     let root = sc.join("a");
@@ -285,7 +315,7 @@ fn random_case(run: &Run, case: u64) {
             .iter()
             .enumerate()
             .filter_map(|(i, b)| match b {
-                BandState::Present { hunks, .. } if !hunks.is_empty() => Some((i, hunks.len())),
+                BandState::Present { hunks, .. } | BandState::Headless { hunks, .. } if !hunks.is_empty() => Some((i, hunks.len())),
                 _ => None,
             })
             .collect();
@@ -314,14 +344,16 @@ pub fn run(tier: Tier, replay: Option<Value>) -> i32 {
     if let Some(r) = &replay {
         if let Some(space) = r.get("space").and_then(|s| s.as_str()) {
             let (b, p, paths, e) = match space {
-                "B2P4" => (2, 4, &p4, false),
-                "B3P3" => (3, 3, &p3, false),
-                "B3P4" => (3, 4, &p4, false),
-                "B2P3E" => (2, 3, &p3, true),
-                "B3P2E" => (3, 2, &p2, true),
-                _ => (4, 2, &p2, false),
+                "B2P4" => (2, 4, &p4, 0u8),
+                "B3P3" => (3, 3, &p3, 0),
+                "B3P4" => (3, 4, &p4, 0),
+                "B2P3E" => (2, 3, &p3, 1),
+                "B3P2E" => (3, 2, &p2, 1),
+                "B3P2H" => (3, 2, &p2, 2),
+                "B3P3H" => (3, 3, &p3, 2),
+                _ => (4, 2, &p2, 0),
             };
-            let states = if e { band_states_with_empty_hunk(p) } else { band_states(p) };
+            let states = match e { 1 => band_states_with_empty_hunk(p), 2 => band_states_with_headless(p), _ => band_states(p) };
             let mut x = r["index"].as_u64().unwrap();
             let mut bands = Vec::new();
             for _ in 0..b {
@@ -339,18 +371,20 @@ pub fn run(tier: Tier, replay: Option<Value>) -> i32 {
         return run.finish("replay", &[], None, &[]);
     }
     run.sample(|| json!({"path_alphabets": {"P4": p4, "P3": p3, "P2": p2}, "band_states_P4": band_states(4).len(), "band_states_P3": band_states(3).len()}));
-    exhaustive(&run, 2, 4, &p4, false);
-    exhaustive(&run, 3, 3, &p3, false);
-    exhaustive(&run, 2, 3, &p3, true);
+    exhaustive(&run, 2, 4, &p4, 0);
+    exhaustive(&run, 3, 3, &p3, 0);
+    exhaustive(&run, 2, 3, &p3, 1);
+    exhaustive(&run, 3, 2, &p2, 2);
     if tier == Tier::Thorough {
-        exhaustive(&run, 4, 2, &p2, false);
-        exhaustive(&run, 3, 2, &p2, true);
-        exhaustive(&run, 3, 4, &p4, false);
+        exhaustive(&run, 4, 2, &p2, 0);
+        exhaustive(&run, 3, 2, &p2, 1);
+        exhaustive(&run, 3, 3, &p3, 2);
+        exhaustive(&run, 3, 4, &p4, 0);
     }
     run.par_cases(tier.pick(3000, 50_000), super::threads(), |c| random_case(&run, c));
     let exhaustive_ok = run.counter("exhaustive_spaces_cut_short") == 0;
     run.finish(
-        "archives written directly in the documented format by the harness: every assignment of {absent, every subset of a P-path alphabet x every split into consecutive non-empty hunks (or no hunk) x {complete, incomplete}} to B bands, exhaustively for (B=2,P=4) and (B=3,P=3), and for (B=2,P=3) with one EMPTY hunk (a json [] as old versions wrote) inserted at every position [thorough: also (B=4,P=2), (B=3,P=4), (B=3,P=2) with an empty hunk]; each entry is a symlink whose target names its band and path. For every existing N the real iter_entries(Specified(N)) must equal the executable stitching rule over the raw files (paths and targets), be strictly increasing under the C11 order model and finish within 50000 storage operations; on a 1-in-16 sample also with 5 subtrees and 4 exclusion sets against the filtered model. Random archives beyond (<=6 bands, <=12 paths, random splits, an empty hunk inserted in a third of the bands, a removed hunk file in a third of the archives). Distinct non-trivial = archives with an incomplete band and >= 2 existing bands (exhaustive part, by index) + random cases.",
+        "archives written directly in the documented format by the harness: every assignment of {absent, every subset of a P-path alphabet x every split into consecutive non-empty hunks (or no hunk) x {complete, incomplete}} to B bands, exhaustively for (B=2,P=4) and (B=3,P=3), for (B=2,P=3) with one EMPTY hunk (a json [] as old versions wrote) inserted at every position, and for (B=3,P=2) with head-less band directories (empty; with hunks; with hunks and a tail — what a killed band creation or a killed version removal leaves) as additional states [thorough: also (B=4,P=2), (B=3,P=4), (B=3,P=2) with an empty hunk]; each entry is a symlink whose target names its band and path. For every existing N the real iter_entries(Specified(N)) must equal the executable stitching rule over the raw files (paths and targets), be strictly increasing under the C11 order model and finish within 50000 storage operations; on a 1-in-16 sample also with 5 subtrees and 4 exclusion sets against the filtered model. Random archives beyond (<=6 bands, <=12 paths, random splits, an empty hunk inserted in a third of the bands, a removed hunk file in a third of the archives). Distinct non-trivial = archives with an incomplete band and >= 2 existing bands (exhaustive part, by index) + random cases.",
         &["fmt06 writer produces what doc/format.md describes (cross-checked: conserve lists them)", "stitching rule as stated in oracle::stitch_model"],
         Some(exhaustive_ok),
         &[("listings_compared", 1000), ("listings_spanning_several_bands", 100), ("filtered_listings_compared", 100), ("random_archives", 100)],
